@@ -139,6 +139,10 @@ def apply_weather_xform(df: pd.DataFrame, xf) -> pd.DataFrame:
                 df.index = np.arange(n)[::-1]
             elif kind == "str":
                 df.index = ["r%05d" % ((i * 7919) % 100003) for i in range(n)]
+            elif kind == "dup":      # repeating labels, as after pd.concat of yearly tables without ignore_index
+                df.index = np.arange(n) % int(op.get("by", 365))
+            elif kind == "const":    # every row carries the same label
+                df.index = np.zeros(n, dtype=int)
         elif k == "pad":  # extra rows before / after with arbitrary values
             nb, na, val = int(op.get("before", 0)), int(op.get("after", 0)), float(op.get("value", 99.0))
             parts = []
